@@ -60,6 +60,11 @@ NEEDS = {
  "C08c": "a solver that tries 0 first (or any order in which a model's 1-startpoints are not supersets of earlier ones)",
  "C11c": "a hash order in which two equal sets enumerate differently (14 of 40 seeds) and a function asymmetric in its startpoints; only dif_out_<s>, not sen_out",
  "C16c": "a dead node whose dead load was created before it (port first, add(..., fanout=...), relabel, netlists in file order)",
+ "C03c": "a blackbox instance with an unconnected pin that the writer emits BEFORE a connected one (pin order follows the hash order of the BlackBox's pin sets; 29 of 32 seeds on the demo)",
+ "C09c": "add_flop_outputs=True with a per-flop initial_values dict that omits a flop instantiated before a listed one (>= 2 flops)",
+ "C10c": "an and/nand gate whose fan-in list was connected in another order than its operand nodes were created, and a hash seed under which two equal fan-in sets iterate differently (10 of 32 seeds)",
+ "C15c": "a constant node with a load that the writer emits before the constant's own line (16 of 32 hash seeds)",
+ "C18c": "",
  "C17c": "",
  "C19c": "influence/avg_sensitivity with supergates=True and a peer failure in the middle (solver raises, pysat unimportable, approxmc missing or exit 1)",
  "C19": "tx.subcircuit asked for ALL nodes of a blackbox-free circuit (directly or through sensitization_transform / influence with an endpoint whose cone is the whole circuit), then any edit or the internal set_output",
